@@ -884,7 +884,22 @@ def run(chk):
     if impl:
         cases = gen_cases(chk.rng, chk.tier)
         correspond(chk, cases, model, impl)
+    turn_over_tcp_stage(chk)
     return chk.finish(**FINISH)
+
+
+def turn_over_tcp_stage(chk):
+    """The relay reached over TCP (socket/udp-turn-over-tcp.c is one of this property's anchors): what the relay forwards must be handed up with exactly
+    the payload however TCP cuts the framed stream.  The framing layer's model, theorems and harness belong to C17 (Stream/TurnTcpModel.v, stream_h.c);
+    its TURN cases are run here as well, so that a change of the framing code is reported for this property too."""
+    import C17
+    m17, o = vlib.ocaml_build("stream_model", "stream_model", C17.DRIVER)
+    i17, o2 = C17.build_impl()
+    if not m17 or not i17:
+        chk.broken_obligation("turn-over-tcp-build", (o if not m17 else o2)[-2000:]); return
+    C = C17.Counter()
+    C17.gen_turn(chk.rng, C, chk.tier)
+    vlib.correspond(chk, C.cases, m17, i17, oracle=C17.oracle, what="turn-over-tcp-framing", nontrivial=C17.nontrivial, max_report=3, timeout=1500)
 
 
 def replay(chk, path):
